@@ -383,7 +383,43 @@ def loop_structure_probe():
   return out
 
 
+def long_list_probe():
+  """a module holding a list of 12 Variables (and a dict keyed '0'..'11'), every one updated by its own amount, under each transform: as eager"""
+  import numpy as np
+
+  class M(nnx.Module):
+    def __init__(self):
+      self.layers = [nnx.Param(jnp.asarray(i, dtype=jnp.int64)) for i in range(12)]
+      self.table = {str(i): nnx.BatchStat(jnp.asarray(100 + i, dtype=jnp.int64)) for i in range(12)}
+
+  def step(m, x):
+    for i, v in enumerate(m.layers):
+      v.value = v.value * 3 + (i + 1) * x
+    for k, v in m.table.items():
+      v.value = v.value + int(k) * x
+    return sum(v.value * (i + 1) for i, v in enumerate(m.layers)) + sum(v.value for v in m.table.values())
+  out = []
+  forms = {'jit': lambda: nnx.jit(step), 'remat': lambda: nnx.remat(step), 'cond': lambda: (lambda m, x: nnx.cond(x > 0, step, step, m, x)),
+           'switch': lambda: (lambda m, x: nnx.switch(0, [step, step], m, x)),
+           'fori': lambda: (lambda m, x: (nnx.fori_loop(0, 2, lambda i, c: (step(c[0], c[1]), c)[1], (m, x)), step(m, x))[1]),
+           'jit_sharded': lambda: nnx.jit(step, in_shardings=(nnx.StateSharding({nnx.Param: None, nnx.BatchStat: None}), None))}
+  snap = lambda m: [int(v.value) for v in m.layers] + [int(m.table[str(i)].value) for i in range(12)]
+  for name, mk in forms.items():
+    try:
+      e, l = M(), M()
+      x = jnp.asarray(2, dtype=jnp.int64)
+      if name == 'fori':
+        step(e, x); step(e, x)
+      ye, yl = step(e, x), mk()(l, x)
+      out.append({'form': name, 'same': int(ye) == int(yl) and snap(e) == snap(l), 'eager': snap(e), 'lifted': snap(l)})
+    except Exception as ex:  # pylint: disable=broad-except
+      out.append({'form': name, 'err': type(ex).__name__, 'msg': str(ex)[:200]})
+  return out
+
+
 def main(payload):
+  if payload.get('long_list'):
+    return {'long_list': long_list_probe()}
   if payload.get('loop_structure'):
     return {'loop_structure': loop_structure_probe()}
   if 'metadata_edits' in payload:
